@@ -191,6 +191,41 @@ func (o *Oracle) Young(calls []Call) []oracleReply {
 	return res
 }
 
+// Epochs computes the references of a single-client history that registers global functions on its way. The result of
+// a call may depend on the functions registered BEFORE it and on nothing else, so every epoch (the calls between two
+// registrations) is evaluated in a brand-new process that first performs the registrations in effect and then sees
+// only that epoch's calls: what an earlier epoch did (a failed lookup of a name that was not registered yet, say)
+// cannot reach it.
+func (o *Oracle) Epochs(calls []Call) []oracleReply {
+	res := make([]oracleReply, len(calls))
+	var regs []Call
+	start := 0
+	flush := func(end int) {
+		if end > start {
+			batch := append(append([]Call(nil), regs...), calls[start:end]...)
+			// Young evaluates in reverse order of its argument: hand it the reversed batch to get plan order
+			rev := make([]Call, len(batch))
+			for i := range batch {
+				rev[len(batch)-1-i] = batch[i]
+			}
+			out := o.Young(rev)
+			for i := start; i < end; i++ {
+				res[i] = out[len(batch)-1-(len(regs)+i-start)]
+			}
+		}
+	}
+	for i, c := range calls {
+		if c.Entry == ERegister {
+			flush(i)
+			res[i] = oracleReply{Canon: "nil"}
+			regs = append(regs, c)
+			start = i + 1
+		}
+	}
+	flush(len(calls))
+	return res
+}
+
 func (o *Oracle) Close() {
 	if o.cmd != nil {
 		o.in.Close()
